@@ -59,6 +59,14 @@ def main():
     ev["coverage"]["axioms_reported"] = audit["axioms"]
     ev["coverage"]["qed_closed_lemmas_in_cone"] = audit["lemmas"]
     proof_ok = audit["ok"]
+    if tier == "thorough" and proof_ok:
+        ck_ok, ck_log = lib.coqchk_property(pid)
+        ev["coverage"]["coqchk"] = "coqchk -o -silent: " + ("no axioms, no type-in-type, no unsafe fixpoints, no assumed positivity" if ck_ok else "FAILED")
+        ev["coverage"]["checker_cmd"] += " && coqchk -o -silent -Q theories Sml Sml.Properties.%s" % pid
+        if not ck_ok:
+            proof_ok = False
+            audit["failed"].append("coqchk does not accept the compiled cone")
+            audit["log"] += "\n" + ck_log
     if not proof_ok:
         print("PROOF-BROKEN %s: %s" % (pid, "; ".join(audit["failed"])))
         print(audit["log"][-1500:])
